@@ -651,6 +651,24 @@ theorem run_refines (up_idem : ∀ k, up (up k) = up k) (ops : List (Op V)) {s :
     rw [← step_refines up_idem h op hx.1, ih (inv_step up_idem h op) hx.2]
 
 /-- `trace` is `run` observed after every step -/
+theorem trace_fst (ops : List (Op V)) (s : Store V) :
+    (trace up s ops).map Prod.fst = (run up s ops).2 := by
+  induction ops generalizing s with
+  | nil => rfl
+  | cons op r ih => simp [trace, run, ih]
+
+theorem trace_keys_inv (up_idem : ∀ k, up (up k) = up k) (ops : List (Op V)) {s : Store V} (h : Inv up s) :
+    ∀ r ∈ trace up s ops, r.2.Nodup ∧ ∀ k ∈ r.2, up k = k := by
+  induction ops generalizing s with
+  | nil => intro r hr; simp [trace] at hr
+  | cons op rest ih =>
+    intro r hr
+    simp only [trace, List.mem_cons] at hr
+    have h' := inv_step up_idem h op
+    rcases hr with e | hr
+    · subst e; exact h'
+    · exact ih h' r hr
+
 theorem trace_length (ops : List (Op V)) (s : Store V) : (trace up s ops).length = ops.length := by
   induction ops generalizing s with
   | nil => rfl
